@@ -255,3 +255,101 @@ def const_value(node, default=None):
             and isinstance(node.operand, ast.Constant):
         return -node.operand.value
     return default
+
+
+# ---------------------------------------------------------------------------
+# N1: None-sentinel discipline
+
+
+# parameters that are genuine booleans with a None default (frozen, with reason)
+N1_BOOLISH = {
+    "simple": "Representation.parse_word: bool flag, None means 'use "
+              "self.parse_simple'; tested after being defaulted",
+    "parse_simple": "bool flag",
+    "verbose": "bool flag",
+}
+# files of the not-applicable property C07 (out of every claimed scope)
+N1_SKIP_FILES = {"geometry_tools/automata/coxeter_automaton.py",
+                 "geometry_tools/utils/sagewrap.py",
+                 "geometry_tools/utils/snappy.py"}
+
+
+def _bool_context_exprs(fnode):
+    """Expressions evaluated for their truth value."""
+    out = []
+
+    def mark(e):
+        if isinstance(e, ast.BoolOp):
+            for v in e.values:
+                mark(v)
+        elif isinstance(e, ast.UnaryOp) and isinstance(e.op, ast.Not):
+            mark(e.operand)
+        else:
+            out.append(e)
+    for n in ast.walk(fnode):
+        if isinstance(n, (ast.If, ast.While, ast.IfExp, ast.Assert)):
+            mark(n.test)
+        elif isinstance(n, ast.comprehension):
+            for c in n.ifs:
+                mark(c)
+        elif isinstance(n, ast.BoolOp):
+            # in value context only the non-final operands are truth-tested
+            for v in n.values[:-1]:
+                mark(v)
+        elif isinstance(n, ast.UnaryOp) and isinstance(n.op, ast.Not):
+            mark(n.operand)
+    return out
+
+
+def n1(ctx, rels, lookup_rels=()):
+    """N1: a parameter whose default is None is a sentinel: it must be tested
+    with `is None` / `is not None`, never by truthiness (legal values such as
+    vertex 0, the start state '', chart index 0 or a zero label are falsy).
+    In `lookup_rels`, `<lookup> or <constant>` defaults are flagged too."""
+    r = ctx.r
+    r.rule("N1", "a None-default parameter is tested by identity (`is None`),"
+                 " never by truthiness (`if p`, `not p`, `p or d`): vertices "
+                 "0 / '' , chart index 0 and the label 0 (infinite order) "
+                 "are legal falsy values; likewise `lookup(..) or const` on "
+                 "label/vertex containers")
+    n_params = 0
+    for rel in rels:
+        m = ctx.p.module_by_rel(rel)
+        if rel in N1_SKIP_FILES:
+            continue
+        for f in ctx.p.all_functions:
+            if f.module is not m:
+                continue
+            d = f.defaults()
+            nonep = {k for k, v in d.items()
+                     if isinstance(v, ast.Constant) and v.value is None
+                     and k not in N1_BOOLISH}
+            n_params += len(nonep)
+            if not nonep and rel not in lookup_rels:
+                continue
+            bad = []
+            for e in _bool_context_exprs(f.node):
+                if isinstance(e, ast.Name) and e.id in nonep:
+                    bad.append((e, f"parameter `{e.id}` (default None) is "
+                                   "tested by truthiness"))
+                if rel in lookup_rels and isinstance(e, ast.Call) \
+                        and isinstance(e.func, ast.Attribute) \
+                        and e.func.attr == "get":
+                    bad.append((e, f"`{ast.unparse(e)}` is tested by "
+                                   "truthiness (`or`-default on a lookup)"))
+            if nonep:
+                r.analysed(f)
+            for e, why in bad:
+                st = _enclosing_stmt(f, e)
+                r.violation(
+                    "N1", f"{f.fq}|{norm_stmt(st)[:100]}", loc(f, e),
+                    norm_stmt(st)[:160],
+                    why + ": a legal falsy value (vertex 0, state '', chart "
+                    "index 0, label 0 = infinite order) is silently replaced "
+                    "by the default / treated as absent",
+                    instance=f"{f.qualname}:{ast.unparse(e)[:40]}")
+            if nonep and not bad:
+                r.ok("N1", f.fq, loc(f, f.node), "",
+                     f"None-default parameter(s) {sorted(nonep)} only tested "
+                     "by identity")
+    return n_params
